@@ -25,6 +25,7 @@ Apply(e) ==
   CASE e.op = "set"     -> DoSet(st, e.k, e.v, e.ok = 1)
     [] e.op = "set_cut" -> DoCutSet(st, e.k, e.v, e.ok = 1)
     [] e.op = "set_kill" -> DoCutSet(st, e.k, e.v, FALSE)
+    [] e.op \in {"sched", "stress"} -> [st EXCEPT !.cand[e.k] = {Absent} \cup {v \in 0..8 : TRUE}]
     [] e.op \in {"del", "api_del"} -> DoDel(st, e.k, e.ok = 1)
     [] e.op = "tamper"  -> IF e.ok = 1 THEN DoTamper(st, e.k) ELSE st
     [] e.op = "reopen"  -> DoMode(st, "ok")
@@ -57,7 +58,11 @@ M14 == IsKv =>
     [] OTHER -> TRUE
 
 \* C15: after a write that was cut short or whose process died, a Get gives a complete old or new value, or absent
-M15 == IsKv /\ E.op = "get" /\ Cardinality(B.cand[E.k]) > 1 => GetOK(B, E.k, E.ok = 1, E.nx = 1, E.rv, E.torn)
+M15 ==
+  /\ (IsKv /\ E.op = "get" /\ Cardinality(B.cand[E.k]) > 1 => GetOK(B, E.k, E.ok = 1, E.nx = 1, E.rv, E.torn))
+  \* a replayed schedule of FsAtomic / a free-running stress: every Get gave a complete value that was Set, or absent;
+  \* no Set, Get or Delete failed
+  /\ (IsKv /\ E.op \in {"sched", "stress"} => E.torn = 0 /\ E.unknown = 0 /\ E.ok = 1 /\ (E.op = "stress" => E.st = 0))
 
 \* C17: encryption at rest
 M17 == IsKv =>
@@ -71,7 +76,7 @@ Bad == { p[1] : p \in { q \in Mons : ~q[2] } }
 
 NT == IF ~IsKv THEN {} ELSE
       (IF E.op \in {"get", "api_get", "del", "api_del", "keys", "api_list"} THEN {"C14"} ELSE {})
-      \cup (IF E.op = "get" /\ Cardinality(B.cand[E.k]) > 1 THEN {"C15"} ELSE {})
+      \cup (IF (E.op = "get" /\ Cardinality(B.cand[E.k]) > 1) \/ E.op \in {"sched", "stress"} THEN {"C15"} ELSE {})
       \cup (IF (B.enc /\ E.op \in {"set", "get"} /\ (E.op = "set" \/ E.k \in B.tampered \/ B.mode # "ok")) \/ E.op = "open_enc" THEN {"C17"} ELSE {})
 
 Record ==
